@@ -194,19 +194,22 @@ C15Verdict(rec) ==
 \*      to the claim message itself and to later messages of the claiming source,
 \*      identity = [some, unique, inst (numbers), mfr, func, cls (observed values [k, s, ...]), name (8 bytes)]
 \* The device identity is a function of the claim's decoded fields (which C01Verdict ties to the payload bits):
-\*   unique number = field uniqueNumber (0 if absent); manufacturer / function / class = the texts of
+\*   unique number = field uniqueNumber; manufacturer / function / class = the texts of
 \*   manufacturerCode / deviceFunction / deviceClass (none for codes the tables do not know);
 \*   instance = 8 * deviceInstanceUpper + deviceInstanceLower; NAME = the 64 payload bits.
 FieldById(rec, id) == rec.f[CHOOSE k \in 1..Len(rec.f) : rec.f[k].id = id]
 HasField(rec, id) == \E k \in 1..Len(rec.f) : rec.f[k].id = id
 NatOr0(ov) == IF ov.k = "num" /\ ~ov.neg /\ Fits30(ov.mag) THEN ToNat(ov.mag) ELSE 0
+\* (what the identity says for a number the claim reports as not available is left open by the property)
+Given(rec, id) == FieldById(rec, id).v.k = "num"
 TextSame(ov, iv) == IF ov.k = "str" THEN iv.k = "str" /\ iv.s = ov.s ELSE iv.k = "none"
 IdentFieldIds == {"uniqueNumber", "manufacturerCode", "deviceInstanceLower", "deviceInstanceUpper", "deviceFunction", "deviceClass"}
 IdentClause(rec, id) ==
   IF ~id.some THEN "identity.missing"
-  ELSE IF id.unique # NatOr0(FieldById(rec, "uniqueNumber").v) THEN "identity.unique-number"
+  ELSE IF Given(rec, "uniqueNumber") /\ id.unique # NatOr0(FieldById(rec, "uniqueNumber").v) THEN "identity.unique-number"
   ELSE IF ~TextSame(FieldById(rec, "manufacturerCode").v, id.mfr) THEN "identity.manufacturer"
-  ELSE IF id.inst # 8 * NatOr0(FieldById(rec, "deviceInstanceUpper").v) + NatOr0(FieldById(rec, "deviceInstanceLower").v)
+  ELSE IF Given(rec, "deviceInstanceUpper") /\ Given(rec, "deviceInstanceLower")
+          /\ id.inst # 8 * NatOr0(FieldById(rec, "deviceInstanceUpper").v) + NatOr0(FieldById(rec, "deviceInstanceLower").v)
        THEN "identity.instance"
   ELSE IF ~TextSame(FieldById(rec, "deviceFunction").v, id.func) THEN "identity.function"
   ELSE IF ~TextSame(FieldById(rec, "deviceClass").v, id.cls) THEN "identity.class"
